@@ -431,7 +431,7 @@ def _subsequence(ch, seq, contiguous):
 
 @st.composite
 def model_cases(draw, classes=None, max_nodes=5, p_node=4, p_se=4, p_ignore=4, p_constr=3, p_opts=0,
-                odd_names=True, noise=True, k_slack=2, weight_types=("int", "float"), p_float_scale=0, p_equal=4):
+                odd_names=True, noise=True, k_slack=2, weight_types=("int", "float"), p_float_scale=0, p_equal=4, p_len=5):
     """A full model construction: class, planted instance, kwargs.  p_* are '1 in p' odds (0 = never).
     The result is a JSON case {cls, graph, flow_attr, kw, meta}; meta carries the planted witness."""
     cls = draw(st.sampled_from(classes or ALL_CLASSES))
@@ -556,17 +556,25 @@ def model_cases(draw, classes=None, max_nodes=5, p_node=4, p_se=4, p_ignore=4, p
         if ch.coin(1, 5):
             constraints.append(constraints[0])
         coverage = ch.pick([1.0, 1.0, 1.0, 0.75, 0.5, 0.34])
+    # ---- length-based constraint coverage (DAG classes): lengths on edges (edge mode) or on nodes (node mode)
+    lengths = None
+    if constraints and not cyc and one_in(p_len):
+        lengths = {el: 1 + ch.below(4) for el in (kept_nodes if node_mode else kept_edges)}
     # ---- assemble graph
     g_nodes, g_edges = [], []
     for v in kept_nodes:
         d = {}
         if node_mode and cls not in COVER and v not in missing:
             d["flow"] = nflow[v]
+        if lengths is not None and node_mode:
+            d["len"] = lengths[v]
         g_nodes.append([v, d])
     for e in kept_edges:
         d = {}
         if not node_mode and cls not in COVER:
             d["flow"] = eflow[e]
+        if lengths is not None and not node_mode:
+            d["len"] = lengths[e]
         g_edges.append([e[0], e[1], d])
     kw = {}
     if cls not in COVER:
@@ -585,7 +593,10 @@ def model_cases(draw, classes=None, max_nodes=5, p_node=4, p_se=4, p_ignore=4, p
         kw["error_scaling"] = scaling
     if constraints:
         kw["subset_constraints" if cyc else "subpath_constraints"] = constraints
-        if coverage != 1.0:
+        if lengths is not None:
+            kw["length_attr"] = "len"
+            kw["subpath_constraints_coverage_length"] = coverage
+        elif coverage != 1.0:
             kw["subset_constraints_coverage" if cyc else "subpath_constraints_coverage"] = coverage
     if cls not in MINCLS:
         kw["k"] = len(planted) + ch.below(k_slack + 1)
